@@ -10,6 +10,7 @@
 import concurrent.futures as cf
 import json
 import os
+import random
 
 import vlib
 
@@ -49,10 +50,12 @@ def trace_stats(path):
     """What the real-code trace exercised (vacuity guard): per category counts."""
     st = {"events": 0, "histories": 0, "ok_alloc": 0, "failed_alloc": 0, "offers": 0, "fresh_commit_ok": 0,
           "commit_refused": 0, "moves": 0, "strict_ok": 0, "reservation_ok": 0, "realloc_ok": 0, "realloc_fail": 0,
-          "release_ok": 0, "twin_ok": 0, "layouts": set(), "states": set()}
+          "release_ok": 0, "twin_ok": 0, "realloc_self_push": 0, "layouts": set(), "states": set()}
+    prev = {}
     for l in open(path):
         e = json.loads(l)
         if e["ev"] == "reset":
+            prev = {}
             st["histories"] += 1
             st["layouts"].add(json.dumps(e["lay"]["nodes"], sort_keys=True))
             continue
@@ -75,14 +78,54 @@ def trace_stats(path):
             st["fresh_commit_ok" if ok else "commit_refused"] += 1
         elif ev == "Realloc":
             st["realloc_ok" if ok else "realloc_fail"] += 1
+            # the re-allocated request ended up on nodes it neither had nor asked for (pushed by the overcommit handler)
+            if ok and set(e["res"].get("z") or []) - set(prev.get(e.get("id"), [])) - set(e.get("nodes") or []) and not e.get("types"):
+                st["realloc_self_push"] += 1
         elif ev == "Release" and ok:
             st["release_ok"] += 1
         if ok and e["res"].get("upd"):
             st["moves"] += 1
         st["states"].add(json.dumps(e["st"]["zone"], sort_keys=True) + json.dumps(e["st"]["req"], sort_keys=True))
+        prev = e["st"]["zone"]
     st["layouts"] = len(st["layouts"])
     st["distinct_states"] = len(st.pop("states"))
     return st
+
+
+def pressure_histories(rnd, n):
+    """Directed histories the simulation/random drivers reach too rarely: requests with OVERLAPPING non-nested zones that
+    nearly fill their nodes, then Reallocs that widen a small request into them -- the overcommit handler may then push
+    the re-allocated request ITSELF beyond the zone it asked for (seeded change C04-m3: Realloc then returned the zone
+    it asked for instead of the one assigned)."""
+    hs = []
+    for _ in range(n):
+        nn = rnd.choice([3, 4, 4, 5])
+        cap = rnd.choice([3, 4, 4, 6])
+        near = rnd.random() < 0.5
+        nodes = [{"id": i, "type": "DRAM", "cap": cap, "normal": True,
+                  "dist": [10 if i == j else (11 if near and i // 2 == j // 2 else 21) for j in range(nn)]} for i in range(nn)]
+        if rnd.random() < 0.3:
+            nodes[-1]["type"], nodes[-1]["normal"] = rnd.choice([("PMEM", False), ("HBM", True), ("PMEM", True)])
+        prios = ["burstable", "burstable", "guaranteed", "besteffort"]
+        A = lambda i, sz, aff: {"op": "Allocate", "id": i, "size": sz, "prio": rnd.choice(prios), "strict": False, "types": [], "aff": aff}
+        first = rnd.randrange(0, nn - 2)
+        ops = [A("a", rnd.choice([1, 1, 2]), [first])]
+        ids = ["a"]
+        for j, i in enumerate("bcd"[:rnd.choice([2, 2, 3])]):
+            lo = (first + j) % (nn - 1)
+            ops.append(A(i, rnd.randint(cap, 2 * cap - 1), [lo, lo + 1]))
+            ids.append(i)
+        for _ in range(rnd.choice([1, 2, 3])):
+            k = rnd.random()
+            if k < 0.75:
+                ops.append({"op": "Realloc", "id": rnd.choice(["a", "a", rnd.choice(ids)]),
+                            "nodes": sorted(rnd.sample(range(nn), rnd.choice([1, 1, 2]))), "types": []})
+            elif k < 0.9:
+                ops.append({"op": "Release", "id": rnd.choice(ids[1:])})
+            else:
+                ops.append(A("e", rnd.choice([1, 2]), [rnd.randrange(nn)]))
+        hs.append({"layout": {"name": "P%dx%d" % (nn, cap), "nodes": nodes}, "ops": ops})
+    return hs
 
 
 def sim_histories(ctx, num, depth, seed):
@@ -102,6 +145,31 @@ def sim_histories(ctx, num, depth, seed):
         seen.add(key)
         hs.append({"layout_name": h["layout"], "ops": ops})
     return hs
+
+
+def returned_zone_check(ctx):
+    """Component check used by C04 (engines/l2.py): both policies pin a container to the zone Allocate/Realloc/Commit
+    RETURN; the first clause of C04 therefore needs the returned zone to be the assigned one.  Runs the directed
+    pressure histories on the real allocator and lets Trace_MemAlloc compare reply and assignment on every call."""
+    binp = vlib.build_harness()
+    hs = pressure_histories(random.Random(ctx.seed * 31 + 11), 800 if ctx.quick else 6000)
+    sp, tp = ctx.path("libmem-pressure-script.json"), ctx.path("libmem-pressure.ndjson")
+    json.dump(hs, open(sp, "w"))
+    vlib.sh([binp, "libmem", "--out", tp, "--script", sp], timeout=600, check=True)
+    files, nhist, nlines = split_trace(tp, 2 if ctx.quick else 16, ctx.out)
+    viols, consumed = [], 0
+    for fp, r in zip(files, validate_chunks("Trace_MemAlloc", "Trace_MemAlloc.cfg", files, ctx.out, 600 if ctx.quick else 3000)):
+        if r["consumed"] is None or r["consumed"] != r["total"]:
+            raise vlib.Inconclusive("libmem component trace not consumed: %s (%s of %s)\n%s" % (fp, r["consumed"], r["total"], r["res"]["out"][-2000:]))
+        consumed += r["consumed"]
+        for v in r["viols"]:
+            if v["pred"] == "Act_ExactUpdates" and v["sig"] == "returned-zone-differs-from-assignment":
+                viols.append(dict(v, pred="Inv_MemsFollowAllocator", sig="allocator-returned-zone-differs-from-assignment", component="libmem"))
+    st = trace_stats(tp)
+    if st["realloc_self_push"] == 0 or st["realloc_ok"] == 0:
+        raise vlib.Inconclusive("libmem component check never exercised a Realloc pushed beyond its request: %s" % st)
+    return viols, {"histories": nhist, "events": consumed, "realloc_ok": st["realloc_ok"], "realloc_self_push": st["realloc_self_push"],
+                   "moves": st["moves"]}
 
 
 def run(ctx):
@@ -146,6 +214,7 @@ def run(ctx):
 
     # 2./3. drivers and replay -----------------------------------------------------------------
     hs = sim_histories(ctx, 40 if q else 400, 12 if q else 16, ctx.seed)
+    hs = hs + pressure_histories(random.Random(ctx.seed * 31 + 7), 800 if q else 6000)
     sp = ctx.path("sim-script.json")
     json.dump(hs, open(sp, "w"))
     t_sim = ctx.path("trace-sim.ndjson")
@@ -177,7 +246,7 @@ def run(ctx):
     # vacuity guard ------------------------------------------------------------------------------
     st = trace_stats(t_all)
     need = {"C06": ["ok_alloc", "failed_alloc", "offers", "fresh_commit_ok", "commit_refused", "release_ok", "twin_ok", "realloc_fail"],
-            "C07": ["ok_alloc", "moves", "strict_ok", "reservation_ok", "realloc_ok"]}[pid]
+            "C07": ["ok_alloc", "moves", "strict_ok", "reservation_ok", "realloc_ok", "realloc_self_push"]}[pid]
     empty = [k for k in need if st[k] == 0]
     if empty:
         raise vlib.Inconclusive("drivers never exercised: %s" % empty)
